@@ -492,6 +492,34 @@ impl<'a> Trainer<'a> {
         ))
     }
 
+    /// Verification hook (compiled only with `--cfg vaporetto_verif`): the examples handed to the
+    /// learner so far, with feature ids decoded (`C:<ngram>:<rel>`, `T:<types>:<rel>`,
+    /// `D:<position>:<length>`) and sorted, each with its count, and the label.
+    #[cfg(vaporetto_verif)]
+    #[doc(hidden)]
+    pub fn verif_examples(&self) -> Vec<(Vec<(String, f64)>, f64)> {
+        let mut names = vec![String::new(); self.feature_ids.len() + 1];
+        for (f, &id) in &self.feature_ids {
+            names[id as usize] = match f {
+                BoundaryFeature::CharacterNgram(x) => format!("C:{}:{}", x.ngram, x.rel_position),
+                BoundaryFeature::CharacterTypeNgram(x) => {
+                    format!("T:{:?}:{}", x.ngram, x.rel_position)
+                }
+                BoundaryFeature::DictionaryWord(d) => format!("D:{:?}:{}", d.position, d.length),
+            };
+        }
+        self.xs
+            .iter()
+            .zip(&self.ys)
+            .map(|(x, &y)| {
+                let mut v: Vec<(String, f64)> =
+                    x.iter().map(|&(id, c)| (names[id as usize].clone(), c)).collect();
+                v.sort_by(|a, b| a.0.cmp(&b.0));
+                (v, y)
+            })
+            .collect()
+    }
+
     /// Returns the number of boundary features.
     pub fn n_features(&self) -> usize {
         self.feature_ids.len()
